@@ -148,7 +148,8 @@ func check(argv []string) int {
 	}
 	tmo := 15 * time.Second
 	if *tier == "thorough" {
-		tmo = 60 * time.Second
+		tmo = 120 * time.Second
+		engine.Thorough = true
 	}
 	if *tmoFlag > 0 {
 		tmo = time.Duration(*tmoFlag) * time.Second
@@ -304,6 +305,7 @@ func check(argv []string) int {
 	}
 	var viols []violation
 	var knownHit []Finding
+	var undecidedThorough []string
 	knownSeen := map[string]bool{}
 	nObl, nOK := 0, 0
 	nSweepClaimed, nSweepUnclaimed := 0, 0
@@ -368,6 +370,13 @@ func check(argv []string) int {
 				knownSeen[o.Name] = true
 			}
 			nObl-- // listed separately, not part of the claim
+			continue
+		}
+		if strings.Contains(o.Name, "@thorough") && (or.R.Status == "timeout" || or.R.Status == "unknown") {
+			// thorough-only clause (minutes of solver time, at the edge of the budget): running out of time
+			// is "not decided this run", never an alarm; a counter-model still is
+			undecidedThorough = append(undecidedThorough, o.Name+" ["+or.R.Status+"]")
+			nObl--
 			continue
 		}
 		why := "obligation not discharged"
@@ -524,6 +533,7 @@ func check(argv []string) int {
 			"samples":                  samples,
 			"sweep_ring":               map[string]interface{}{"claimed": nSweepClaimed, "not_claimed": nSweepUnclaimed + skippedUnclaimed, "not_claimed_undecided": undecidedSweep, "out_of_reach": outOfReach},
 			"known_findings":           kf,
+			"undecided_thorough_only":  undecidedThorough,
 			"per_obligation_timeout_s": tmo.Seconds(),
 			"explanation":              "obligations = proof obligations generated from /repo's current SSA for the functions under contract (plus claimed sweep-ring safety obligations); discharged = those the SMT portfolio answered unsat (vacuity checks: sat)",
 		},
